@@ -23,6 +23,8 @@ var generators = map[string]func(*Gen){
 	"C12": genC12,
 	"C13": genC13,
 	"C14": genC14,
+	"C15": genC15,
+	"C17": genC17,
 	"C19": genC19,
 }
 
